@@ -189,6 +189,11 @@ class C07Monitor(jobsim.Monitor):
                 self.V("prescribed-exact", f"returned field differs from the boundary values by {d.max():.3e} at unknown {int(idx[d.argmax()])}", site="result.x-vs-boundaries")
             if not set(idx.tolist()) <= set(c["dof0"].tolist()):
                 self.V("prescribed-exact", "an unknown selected by a boundary is not in the prescribed set", site="dof0")
+        want0 = world.expected_dof0(eng.w, c["step"])
+        got0 = set(int(v) for v in c["dof0"])
+        if want0 != got0:
+            self.V("prescribed-exact", f"the prescribed set handed to Newton differs from boundaries + listed points without cells: {len(got0 - want0)} unknowns too many, {len(want0 - got0)} missing", site="partition.dof0")
+        self.log.count("partition-checked")
         # independent equilibrium: cold fork, committed state of the substep start
         fk = world.fork(eng.w, durable=c["durable_start"], step_index=c["step"], substep=c["substep"])
         fk.set_values([f.values for f in res.x.fields])
